@@ -159,10 +159,11 @@ def w_gro(m, lay, rng, variant):
         names.append((s.upper() + str(i % 1000))[:5] if i % 4 != 2 else ["CMAB1", "HEME2", "OXT12"][i % 3])   # also names filling the five columns
         resn.append(["SOL", "WAT", "LIG", "HEMEA", "POPC1"][i % 5])
         resq.append(fv(m, "gro_atom", "resnum", i, 1 + (i // 3) % 99999))
-        lines.append(render_record(lay["gro_atom"], {"resnum": resq[-1], "resname": resn[-1], "atname": names[-1], "atnum": (i + 1) % 100000,
-                                                      "x": r[0], "y": r[1], "z": r[2], "vx": vel[i, 0], "vy": vel[i, 1], "vz": vel[i, 2]}))
+        rec = render_record(lay["gro_atom"], {"resnum": resq[-1], "resname": resn[-1], "atname": names[-1], "atnum": (i + 1) % 100000,
+                                              "x": r[0], "y": r[1], "z": r[2], "vx": vel[i, 0], "vy": vel[i, 1], "vz": vel[i, 2]})
+        lines.append(rec[:44] if variant.startswith("novel") else rec)      # the velocity columns are optional
     box = [3.15, 3.3, 3.725]
-    if variant == "triclinic":
+    if variant in ("triclinic", "novel_triclinic"):
         full = [3.15, 3.3, 3.725, 0.0, 0.0, 0.125, 0.0, 0.05, -0.075]
         lines.append("".join(f"{v:10.5f}" for v in full))
         cell = np.array([[full[0], full[3], full[4]], [full[5], full[1], full[6]], [full[7], full[8], full[2]]])
@@ -171,6 +172,8 @@ def w_gro(m, lay, rng, variant):
         cell = np.diag(box)
     exp = {"atcoords": m.xyz, "cellvecs": cell, "atffparams.attypes": names, "atffparams.resnames": resn, "atffparams.resnums": resq,
            "extra.time": 12.5, "extra.velocities": vel, "title": m.title}
+    if variant.startswith("novel"):
+        del exp["extra.velocities"]
     return "m.gro", "\n".join(lines) + "\n", exp
 
 
@@ -197,16 +200,20 @@ def w_crd(m, lay, rng, variant):
 
 
 def w_mol2(m, lay, rng, variant):
-    lines = ["# independent writer", "@<TRIPOS>MOLECULE", m.title, f"{m.natom:5d} {len(m.bonds):5d} 1 0 0", "SMALL", "USER_CHARGES", "",
+    # blank lines are ignored by the format, also when they hold blanks or tabs
+    blank = "   \t" if variant == "blanks" else ""
+    lines = ["# independent writer", blank, "@<TRIPOS>MOLECULE", m.title, f"{m.natom:5d} {len(m.bonds):5d} 1 0 0", "SMALL", "USER_CHARGES", blank,
              "@<TRIPOS>ATOM"]
     types = []
     for i, (s, r) in enumerate(zip(m.sym, m.xyz)):
         types.append(s + [".3", ".2", ".ar", ""][i % 4] if i % 5 != 3 else ["CG2R61", "CG2R64", "HGR61x", "OG311"][i % 4])   # force-field types of six characters
-        lines.append(f"{i + 1:7d} {s + str(i + 1):<8s} {r[0]:10.4f} {r[1]:10.4f} {r[2]:10.4f} {types[-1]:<6s} {1:3d} LIG {m.charges[i]:10.4f}")
+        # the optional status bits close the atom line (and the bond line) in files written by SYBYL and many converters
+        status = "" if variant != "statusbits" else ["", " WATER", " BACKBONE|DICT|DIRECT", " DSPMOD"][i % 4]
+        lines.append(f"{i + 1:7d} {s + str(i + 1):<8s} {r[0]:10.4f} {r[1]:10.4f} {r[2]:10.4f} {types[-1]:<6s} {1:3d} LIG {m.charges[i]:10.4f}{status}")
     lines.append("@<TRIPOS>BOND")
     code = {1: "1", 2: "2", 3: "3", 4: "ar"}
     for k, (i, j, t) in enumerate(m.bonds):
-        lines.append(f"{k + 1:6d} {i + 1:5d} {j + 1:5d} {code[t]:>4s}")
+        lines.append(f"{k + 1:6d} {i + 1:5d} {j + 1:5d} {code[t]:>4s}" + (" BACKBONE|DICT" if variant == "statusbits" and k % 2 else ""))
     exp = {"atnums": m.z, "atcoords": m.xyz, "bonds": [list(b) for b in m.bonds], "title": m.title,
            "atcharges.mol2charges": m.charges, "atffparams.attypes": types}
     return "m.mol2", "\n".join(lines) + "\n", exp
@@ -230,8 +237,11 @@ def _vasp_header(m, rng, variant):
                 groups[-1] = (z, groups[-1][1] + 1)
             else:
                 groups.append((z, 1))
-    scale = 1.0 if variant != "scaled" else 1.25
+    scale = 1.0 if variant not in ("scaled", "volume") else 1.25
     lines = [m.title, f"   {scale:.14f}"]
+    if variant == "volume":
+        # a negative scaling factor is the volume of the cell in cubic angstrom (the lattice vectors only give its shape)
+        lines[1] = f"   {-abs(float(np.linalg.det(m.cell))):.10f}"
     for v in m.cell / scale:
         lines.append(f" {v[0]:21.16f} {v[1]:21.16f} {v[2]:21.16f}")
     lines.append(" ".join(f"{SYMBOLS[z - 1]:>4s}" for z, _n in groups))
@@ -950,8 +960,8 @@ WRITERS = {"xyz": w_xyz, "extxyz": w_extxyz, "sdf": w_sdf, "pdb": w_pdb, "gromac
            "poscar": w_poscar, "chgcar": w_chgcar, "locpot": w_locpot, "cube": w_cube, "fcidump": w_fcidump,
            "gaussianinput": w_gaussianinput, "json_qcschema": w_json, "fchk": w_fchk, "gaussianlog": w_gaussianlog,
            "orcalog": w_orcalog, "gamess": w_gamess, "qchemlog": w_qchemlog, "wfx": w_wfx, "mwfn": w_mwfn, "cp2klog": w_cp2klog}
-VARIANTS = {"xyz": ["plain", "numbers"], "poscar": ["direct", "cartesian", "selective", "scaled", "repeated"], "cube": ["five", "ragged", "six", "one", "nval"],
-            "gromacs": ["rect", "triclinic"], "json_qcschema": ["plain", "massnumbers"], "gaussianlog": ["plain", "twoel"], "orcalog": ["plain", "opt", "longscf"], "gamess": ["plain", "opt"],
+VARIANTS = {"xyz": ["plain", "numbers"], "poscar": ["direct", "cartesian", "selective", "scaled", "repeated", "volume"], "cube": ["five", "ragged", "six", "one", "nval"],
+            "gromacs": ["rect", "triclinic", "novel", "novel_triclinic"], "mol2": ["plain", "statusbits", "blanks"], "json_qcschema": ["plain", "massnumbers"], "gaussianlog": ["plain", "twoel"], "orcalog": ["plain", "opt", "longscf"], "gamess": ["plain", "opt"],
             "qchemlog": ["plain", "unrestricted", "freq"], "wfx": ["plain", "gradient", "gradient_permuted"], "fchk": ["plain", "shuffled"],
             "gaussianinput": ["plain", "route_units", "route_long"], "fcidump": ["plain", "upper"], "mwfn": ["plain", "ecp"], "chgcar": ["plain", "lefthanded"], "locpot": ["plain", "lefthanded"],
             "cp2klog": ["ae_con", "pp_con", "ae_unc", "pp_unc", "ae_con_u", "pp_unc_u", "ae_unc_u", "pp_con_u"]}
